@@ -37,6 +37,18 @@ of dimensionless ones gives the arithmetic sum without units); (5) a COMPLETE sw
 q-q', -q - so that no table row is outside the quick tier whatever the seed; (6) NumPy scalars as exponents
 (np.int32/int64 for whole exponents, np.float64 for all, np.float32/float16 where the exponent is exactly
 representable, so that the numeric power itself is unaffected by the narrower type).
+
+Round-7 additions: (7) the reported units are read back WITH their zero-exponent terms: where the units bookkeeping is
+demanded, a term such as 'm0' / 'km0*s0' is a unit that cancelled and was not dropped (behaviour
+"units-zero-exponent"); the zero exponent now also comes as the unreduced pair (0,3) and in the per-unit table sweep;
+(8) HISTORIES: the operands of the judged operation are LIVE objects that already took part in an earlier operation
+c = a op1 b (op1 in * / + - or c = a**2, c = -a) whose result was then left alone, rebased in place (c.rebase()) or
+converted in place to its own units (c.to(c.units())); afterwards a op b, b op a, a op a, b op b, a**p, b**p, -a,
+a*2, 2/b are judged by the same oracle as for freshly built operands (the statement quantifies over all quantities,
+not only fresh ones; a quantity that still reports 2 m must multiply like 2 m).  The earlier operation and the
+in-place method are part of the ONE case, so replay rebuilds the whole history.  The result c itself and whether the
+operands still REPORT the same value/units is C07's business and is not judged here; an earlier step that raises
+makes the case "not demanded".
 """
 import math
 from fractions import Fraction as F
@@ -50,7 +62,8 @@ from .. import isolation
 PROPERTY = "C06"
 LEVEL = "exploration"
 RULE = ("case = (operation, left operand (unit, magnitude), right operand | exponent+form | plain number and its "
-        "side); every case of the stated alphabet is enumerated exactly once (shards partition the operand-pair "
+        "side | history: live operand pair, earlier operation, in-place method on its result, judged operation); "
+        "every case of the stated alphabet is enumerated exactly once (shards partition the operand-pair "
         "list); non-trivial = at least one operand carries a unit (cases of two bare numbers are counted as "
         "evaluations only)")
 ASSUMPTIONS = [
@@ -94,7 +107,7 @@ OPS = ["add", "sub", "mul", "div"]
 # exponents n/d ("small d") ; every one is tried in all applicable forms
 EXPONENTS = [(2, 1), (3, 1), (1, 1), (0, 1), (-1, 1), (-2, 1),
              (1, 2), (3, 2), (-1, 2), (5, 2), (1, 3), (2, 3), (-2, 3), (1, 4), (3, 4),
-             (2, 4), (4, 2), (-3, 6)]                         # unreduced pairs
+             (2, 4), (4, 2), (-3, 6), (0, 3)]                 # unreduced pairs (incl. an unreduced zero)
 POW_MAGS = [2.0, 0.5, 1e10, -3.0, 0.0, [1.0, 2.0, 4.0], ARR_A]
 # chains: operands that are results of earlier arithmetic
 PLAIN2 = "plain"                                               # marker: the plain number 2 as third operand
@@ -118,7 +131,21 @@ SUM_LIST_MAGS = [(1.0, 20.0, 0.5), ([1.0, 2.0], [20.0, -4.0], [0.5, 8.0])]
 # complete sweep over the table (every tier): magnitudes that occur nowhere else, so no case is enumerated twice
 SWEEP_X, SWEEP_Y, SWEEP_ARR = 4.0, 3.0, [3.0, 0.25, 5.0]
 SWEEP_POWERS = [((-1, 1), "int"), ((-2, 1), "int"), ((2, 1), "int"), ((1, 2), "pair"), ((-1, 2), "pair"),
-                ((-1, 2), "float"), ((-1, 1), "float")]
+                ((-1, 2), "float"), ((-1, 1), "float"), ((0, 1), "int"), ((0, 1), "float")]
+# histories: live operands a, b that already took part in  c = a op1 b  (+ an in-place method on c) are used again
+HIST_UNITS = CHAIN_UNITS + [(("k", "g", 1), ("", "m", 2), ("", "s", -2)), (("k", "m", 1), ("", "h", -1)),
+                            (("", "J", 1),)]
+HIST_UNITS_THOROUGH = CHAIN_UNITS_THOROUGH + [(("k", "g", 1), ("", "m", 2), ("", "s", -2)),
+                                              (("k", "m", 1), ("", "h", -1)), (("", "statC", 1),)]
+HIST_MAGS = [(6.0, 1.5), ([1.0, 2.0, 4.0], [0.5, 4.0, -8.0])]
+HIST_FIRST = ["mul", "div", "add", "sub", "pow2", "neg"]     # c = a op1 b | a**2 | -a   (sums only of equal dimension)
+HIST_METHODS = ["none", "rebase", "to-own-units"]            # in-place method called on the earlier result c
+_A, _B = dict(ref="a"), dict(ref="b")
+HIST_THEN = ([dict(k="bin", op=op, a=x, b=y) for x, y in ((_A, _B), (_B, _A), (_A, _A), (_B, _B)) for op in OPS] +
+             [dict(k="pow", a=_A, p=[2, 1], form="int"), dict(k="pow", a=_A, p=[1, 2], form="pair"),
+              dict(k="pow", a=_B, p=[2, 1], form="int"), dict(k="pow", a=_B, p=[-1, 1], form="int"),
+              dict(k="neg", a=_A),
+              dict(k="bin", op="mul", a=_A, b=dict(plain=2)), dict(k="bin", op="div", a=dict(plain=2), b=_B)])
 NP_FORMS = ["np.float64", "np.float32", "np.float16", "np.int64", "np.int32"]
 
 _UNITS = None          # list of unit tuples: CORE first, then the window entries
@@ -197,12 +224,14 @@ def _plain(c):
     return dict(plain=c)
 
 
-def _mk(o):
+def _mk(o, env=None):
     from scinumtools.units import Quantity
     if "plain" in o:
         return o["plain"]
+    if "ref" in o:                                 # a live operand of a history case
+        return env[o["ref"]]
     if "k" in o:                                   # operand = result of earlier arithmetic (chain)
-        return _execute(o)
+        return _execute(o, env)
     u = _uj(o["u"])
     x = o["x"]
     x = list(x) if isinstance(x, (list, tuple)) else x
@@ -266,6 +295,11 @@ def _expect(case):
 
 def _expect_inner(case):
     k = case["k"]
+    if k == "hist":
+        e = _expect_inner(_subst(case["then"], case))
+        if e is not None:
+            e["tags"] = sorted(set(e["tags"]) | {"history", "first:" + case["first"], "method:" + case["method"]})
+        return e
     tags = ["kind:" + k]
     if any("k" in case[x] for x in ("a", "b") if x in case):
         tags.append("chained")
@@ -391,11 +425,56 @@ def _power_arg(case):
     raise HarnessError("unknown exponent form " + form)
 
 
-def _execute(case):
+def _subst(o, case):
+    """the judged operation of a history case with the references replaced by the operand descriptions"""
+    if "ref" in o:
+        return case[o["ref"]]
+    if "k" in o:
+        return {key: (_subst(v, case) if key in ("a", "b") else v) for key, v in o.items()}
+    return o
+
+
+def _history(case):
+    """build the live operands, run the earlier operation and the in-place method on its result"""
+    a, b = _mk(case["a"]), _mk(case["b"])
+    first = case["first"]
+    try:
+        if first == "mul":
+            c = a * b
+        elif first == "div":
+            c = a / b
+        elif first == "add":
+            c = a + b
+        elif first == "sub":
+            c = a - b
+        elif first == "pow2":
+            c = a ** 2
+        elif first == "neg":
+            c = -a
+        else:
+            raise HarnessError("unknown first operation %r" % (first,))
+        m = case["method"]
+        if m == "rebase":
+            c.rebase()
+        elif m == "to-own-units":
+            if c.units() is not None:
+                c.to(c.units())
+        elif m != "none":
+            raise HarnessError("unknown method %r" % (m,))
+    except HarnessError:
+        raise
+    except Exception as e:          # the earlier steps are judged by their own cases, not here
+        raise _NotDemanded("history step raised %s" % type(e).__name__)
+    return dict(a=a, b=b, c=c)
+
+
+def _execute(case, env=None):
     """build fresh operands (the library may alter operands, which is C07's business) and run the operation"""
     k = case["k"]
+    if k == "hist":
+        return _execute(case["then"], _history(case))
     if k == "bin":
-        a, b = _mk(case["a"]), _mk(case["b"])
+        a, b = _mk(case["a"], env), _mk(case["b"], env)
         op = case["op"]
         if op == "add":
             return a + b
@@ -405,10 +484,10 @@ def _execute(case):
             return a * b
         return a / b
     if k == "neg":
-        return -_mk(case["a"])
+        return -_mk(case["a"], env)
     if k == "sum":
-        return sum([_mk(o) for o in case["items"]])
-    return _mk(case["a"]) ** _power_arg(case)
+        return sum([_mk(o, env) for o in case["items"]])
+    return _mk(case["a"], env) ** _power_arg(case)
 
 
 def _umap_json(m):
@@ -422,6 +501,9 @@ def check_case(case):
         return None, "not-demanded"
     tags = exp["tags"]
     out = outcome(_execute, case)
+    if out[0] == "err" and out[1] == "_NotDemanded":
+        isolation.tables_restore()
+        return None, "not-demanded"
     if _guard_state() != _GUARD or out[0] == "err" and not exp.get("refuse"):
         isolation.tables_restore()
     if exp.get("refuse"):
@@ -435,6 +517,8 @@ def check_case(case):
     sub = "power" if case["k"] == "pow" else ("negation" if case["k"] == "neg" else "arithmetic")
     if case["k"] == "sum":
         sub = "builtin-sum"
+    if case["k"] == "hist":
+        sub = "after-history"
     if out[0] == "err":
         return failure(sub, case, "a result", list(out[1:]), tags=tags, behaviour="raises:" + out[1]), "raised"
     res = out[1]
@@ -442,7 +526,7 @@ def check_case(case):
     if got[0] == "err":
         return failure(sub, case, "a Quantity with readable value/units/dimensions", list(got[1:]), tags=tags,
                        behaviour="unreadable:" + got[1]), "unreadable"
-    value, rm, ld = got[1]
+    value, rm, ld, zero = got[1]
     edims = tuple(exp["dims"])
     if ld != edims or R.map_dims(rm) != edims:
         return failure(sub, case, dict(dims=[str(x) for x in edims]),
@@ -456,6 +540,11 @@ def check_case(case):
     if exp["units"] is not None and rm != exp["units"]:
         return failure(sub, case, dict(units=_umap_json(exp["units"])),
                        dict(units=_umap_json(rm), value=_tolist(value)), tags=tags, behaviour="units"), "bad:units"
+    if exp["units"] is not None and zero:
+        # a unit whose exponent (hence dimension) cancelled is reported with exponent 0 instead of being dropped
+        return failure(sub, case, dict(units=_umap_json(exp["units"])),
+                       dict(units_text=zero[0], zero_exponent_terms=zero[1], value=_tolist(value)), tags=tags,
+                       behaviour="units-zero-exponent"), "bad:units-zero-exponent"
     label = "ok"
     if "fold" in tags:
         label = "ok:folded"
@@ -471,9 +560,12 @@ def _observe(res):
     if not isinstance(res, Quantity):
         raise TypeError("result is %s, not a Quantity" % type(res).__name__)
     value = res.value()
-    rm = R.parse_units(res.units())
+    text = res.units()
+    full = R.parse_units(text, keep_zero=True)
+    rm = {key: e for key, e in full.items() if e != 0}
+    zero = [text, sorted(p + s for (p, s), e in full.items() if e == 0)] if len(rm) != len(full) else None
     ld = R.lib_dims(res.baseunits.dimensions)
-    return value, rm, ld
+    return value, rm, ld, zero
 
 
 # ------------------------------------------------------------------------------------------------ enumeration
@@ -481,6 +573,7 @@ NBIN = 64
 NUNA = 16
 NCHAIN = 32
 NSWEEP = 16
+NHIST = 32
 
 
 def plan(tier, seed):
@@ -488,6 +581,7 @@ def plan(tier, seed):
     return ([("bin", tier, seed, k) for k in range(NBIN)] +
             [("chain", tier, seed, k) for k in range(NCHAIN)] +
             [("sweep", tier, seed, k) for k in range(NSWEEP)] +
+            [("hist", tier, seed, k) for k in range(NHIST)] +
             [("una", tier, seed, k) for k in range(NUNA)])
 
 
@@ -524,6 +618,28 @@ def _chain_cases(k, tier):
                     for op2 in OPS:
                         yield dict(k="bin", op=op2, a=inner, b=_third(uc, xc))
                         yield dict(k="bin", op=op2, a=_third(uc, xc), b=inner)
+
+
+def _hist_cases(k, tier):
+    """live operands re-used after an earlier operation (and an in-place method on its result)"""
+    units = HIST_UNITS_THOROUGH if tier == "thorough" else HIST_UNITS
+    idx = 0
+    for ua in units:
+        for ub in units:
+            mine = idx % NHIST == k
+            idx += 1
+            if not mine:
+                continue
+            ua_, ub_ = R.unit(*ua), R.unit(*ub)
+            samedim = R.dims(ua_) == R.dims(ub_)
+            for xa, xb in HIST_MAGS:
+                for first in HIST_FIRST:
+                    if first in ("add", "sub") and not samedim:
+                        continue
+                    for method in HIST_METHODS:
+                        for then in HIST_THEN:
+                            yield dict(k="hist", a=_opnd(ua_, xa), b=_opnd(ub_, xb), first=first, method=method,
+                                       then=then)
 
 
 def _bin_cases(units, k, tier):
@@ -615,6 +731,8 @@ def _leaves(o):
         for it in o["items"]:
             yield from _leaves(it)
         return
+    if "ref" in o:
+        return
     if "k" in o:
         for key in ("a", "b"):
             if key in o:
@@ -632,19 +750,29 @@ def run_shard(desc):
     sh = Shard(PROPERTY)
     units, w, nwin = _alphabet(tier, seed)
     gen = (_bin_cases(units, k, tier) if kind == "bin" else _chain_cases(k, tier) if kind == "chain"
-           else _sweep_cases(k) if kind == "sweep" else _una_cases(units, k))
+           else _sweep_cases(k) if kind == "sweep" else _hist_cases(k, tier) if kind == "hist"
+           else _una_cases(units, k))
     for case in gen:
         bad, label = check_case(case)
         if label == "not-demanded":
             sh.count("skipped:not-demanded")
+            if kind == "hist":
+                sh.count("hist-skipped:not-demanded")
             continue
         sh.evaluations += 1
         if not _trivial(case):
             sh.nontrivial += 1
-        sh.count((kind if kind in ("chain", "sweep") else case["k"]) + (":" + case["op"] if "op" in case else "")
-                 + ":" + label)
+        if kind == "hist":
+            sh.count("hist:%s:%s:%s" % (case["first"], case["method"], label))
+            sh.count("hist-then:" + case["then"]["k"] + (":" + case["then"]["op"] if "op" in case["then"] else "")
+                     + ":" + label)
+        else:
+            sh.count((kind if kind in ("chain", "sweep") else case["k"]) + (":" + case["op"] if "op" in case else "")
+                     + ":" + label)
         if kind == "sweep":
             sh.count("sweepkind:" + case["k"] + ":" + label)
+        if case["k"] == "pow" and case["p"][0] == 0 and label != "ok:units-not-demanded":
+            sh.count("pow-zero:units-demanded")
         if case["k"] == "pow":
             sh.count("pow-form:" + case["form"] + (":integral" if case["p"][1] == 1 else ":nonintegral"))
         if bad:
@@ -692,6 +820,18 @@ def finish(total, tier, seed):
         "builtin sums computed": h.get("sweepkind:sum:ok", 0) + tot("sweepkind:sum:bad") + tot("sweepkind:sum:raised"),
         "numpy float32 exponents": h.get("pow-form:np.float32:nonintegral", 0),
         "numpy integer exponents": h.get("pow-form:np.int64:integral", 0),
+        "zero exponents with demanded units": h.get("pow-zero:units-demanded", 0),
+        "operands re-used after a rebased product": tot("hist:mul:rebase:ok") + tot("hist:mul:rebase:bad")
+            + tot("hist:mul:rebase:raised"),
+        "operands re-used after a converted quotient": tot("hist:div:to-own-units:ok")
+            + tot("hist:div:to-own-units:bad") + tot("hist:div:to-own-units:raised"),
+        "operands re-used after a rebased sum": tot("hist:add:rebase:ok") + tot("hist:add:rebase:bad")
+            + tot("hist:add:rebase:raised"),
+        "re-used operands: quotients folded to a number": tot("hist-then:bin:div", ":ok:folded")
+            + tot("hist-then:bin:div:bad"),
+        "re-used operands: sums refused": tot("hist-then:bin:add", ":refused")
+            + tot("hist-then:bin:add", ":refusal:accepted"),
+        "re-used operands: powers": tot("hist-then:pow:ok") + tot("hist-then:pow:bad"),
     }
     empty = [name for name, v in need.items() if v == 0]
     if empty:
@@ -714,6 +854,15 @@ def finish(total, tier, seed):
                     third_operand="every chain unit or the plain number 2", magnitudes=CHAIN_MAGS,
                     power_bases=[R.render(R.unit(*u)) for u in CHAIN_POW_UNITS],
                     powers=["%d/%d as %s" % (n, d, f) for (n, d), f in CHAIN_POWERS]),
+        histories=dict(units=[R.render(R.unit(*u)) for u in
+                              (HIST_UNITS_THOROUGH if tier == "thorough" else HIST_UNITS)],
+                       earlier_operation=["c = a %s b" % o for o in ("*", "/", "+", "-")] + ["c = a**2", "c = -a"],
+                       in_place_method_on_c=HIST_METHODS, magnitudes=HIST_MAGS,
+                       judged_afterwards=["a op b", "b op a", "a op a", "b op b (op in + - * /)", "a**2", "a**(1,2)",
+                                          "b**2", "b**-1", "-a", "a*2", "2/b"],
+                       cases=tot("hist:"), skipped_not_demanded=h.get("hist-skipped:not-demanded", 0)),
+        zero_exponent_terms="units() is read back with zero-exponent terms; reported as units-zero-exponent "
+                            "wherever the units bookkeeping is demanded",
         caps_hit=[],
         table_leaks_restored=total.extra.get("table_leaks_restored", 0),
     )
@@ -727,7 +876,13 @@ MANIFEST = dict(
          "per-unit sweep of the whole unit table in every tier. Checked per case: base value (rel 1e-12), "
          "dimension vector, units bookkeeping (left units for sums, exponent sums, exponent*p, folding when all "
          "dimensions vanish), refusal of sums of different dimension (incl. number +- angle). Chains: operands that "
-         "are results of * / ** ((a op1 b) op2 c, c op2 (a op1 b), (a**p) op2 c) over 10 units (18 in thorough).",
+         "are results of * / ** ((a op1 b) op2 c, c op2 (a op1 b), (a**p) op2 c) over 10 units (18 in thorough). "
+         "Zero exponents (0, 0.0, (0,1), (0,3), Fraction, NumPy) on every core/window unit and on every table unit: "
+         "reported units are read back with their zero-exponent terms, so 'm0' is a unit that was not dropped. "
+         "Histories: live operands a, b (13 units, 21 in thorough, all ordered pairs, scalar and array) that already "
+         "took part in c = a*b, a/b, a+b, a-b, a**2 or -a, with c left alone, rebased in place or converted in place "
+         "to its own units, are used again in a op b, b op a, a op a, b op b, a**p, b**p, -a, a*2, 2/b and judged like "
+         "fresh operands.",
     note="Trusted: the published unit tables as data, float64 arithmetic of the reference, the reading of units() "
          "text through the table's spelling dictionary. Units bookkeeping is not demanded where the expected units "
          "have linearly dependent dimension vectors (partial cancellation, dimensionless units) and for negation; "
